@@ -190,9 +190,9 @@ def obligations(tier, seed):
         dict(name='C16a.shebang_text.twin', fn='shebang_text_twin', shards=[['len(s) <= %d' % n_text]], timeout=t,
              expect='refuted', bounds='reachability twin'),
         dict(name='C16b.shebang_bytes', fn='shebang_bytes',
-             shards=[['len(x) <= %d' % (n_x if c == 0 else n_x - 1), 'cookie == %d' % c, 'eol == %d' % e]
+             shards=[['len(x) <= %d' % (n_x - 1), 'cookie == %d' % c, 'eol == %d' % e]
                      for c in range(3) for e in range(3)], timeout=t,
-             bounds='|x| <= %d without cookie, <= %d with a coding cookie; 3 newline conventions x 3 cookie forms' % (n_x, n_x - 1),
+             bounds='|x| <= %d, every byte value; 3 newline conventions x 3 cookie forms' % (n_x - 1),
              public_replay='public_shebang_bytes'),
         dict(name='C16b.bytes_text_agree', fn='bytes_text_agree', shards=[['len(b) <= %d' % (n_x + 2)]], timeout=t,
              bounds='ASCII bytes |b| <= %d' % (n_x + 2)),
